@@ -19,12 +19,38 @@ def count_entry(E):
                                                             is_whole(b.multiplier)))))
 
 
-WIGM_COUNTS_FIXED = ['droop.rules.wigm_prf.Rule.count', 'droop.rules.scotland.Rule.count']
+@specfn
+def ledger_entry(E):
+    """vote ledger at the hand-over (Election.count has just set every tally to zero): the ghost total T (all tallies + the
+    non-transferable total) is the non-transferable total"""
+    return and_(ghost('T') == E.exhausted,
+                forall('ref:droop.candidate.Candidate', lambda c: implies(in_election(c), c.vote == E.V0)))
 
 
-@contract(WIGM_COUNTS_FIXED, props=['C01', 'C09'], site_props=['C02', 'C04', 'C06', 'C07'])
-def wigm_family_count(self: 'any_rule'):
-    "statutory WIGM rules (fixed-point arithmetic): same counter-level contract as the parametric rule"
+@specfn
+def ledger_total(E):
+    "W5: no vote has been created (none lost either under exact arithmetic)"
+    N = V_of_int(E.electionProfile.nBallots)
+    return ite(instance_is('real'), ghost('T') == N, ghost('T') <= N)
+
+
+@specfn
+def ledger_piles(E):
+    "W6: the tally of every continuing candidate is the value of the ballots standing with that candidate"
+    return forall('ref:droop.candidate.Candidate',
+                  lambda c: implies(and_(in_election(c), or_(c.state == 'hopeful', and_(c.state == 'elected', truthy(c.pending)))),
+                                    c.vote == ghost_at('G', c)))
+
+
+@specfn
+def ledger_nonneg(E):
+    "no tally and no non-transferable total is negative"
+    return and_(forall('ref:droop.candidate.Candidate', lambda c: implies(in_election(c), c.vote >= E.V0)), E.exhausted >= E.V0)
+
+
+@contract('droop.rules.wigm_prf.Rule.count', props=['C01', 'C09'], site_props=['C02', 'C04', 'C06', 'C07'])
+def wigm_prf_count(self: 'any_rule'):
+    "statutory WIGM rule (fixed-point arithmetic): same counter-level contract as the parametric rule"
     E = self.E
     requires(count_entry(E))
     ensures(ghost('nH') == 0, name='every candidate is decided: nobody is left hopeful')
@@ -35,6 +61,36 @@ def wigm_family_count(self: 'any_rule'):
     modifies_all(Ballot, 'index', 'weight')
     modifies(E, 'quota', 'exhausted', 'round', 'surplus')
     modifies_ghost('nH', 'nE', 'nD', 'nP', 'nlog', 'lasttag', 'lastmsg')
+
+
+@contract('droop.rules.wigm_prf.Rule.count', props=['C02', 'C06'], ledger=True)
+def wigm_prf_count_ledger(self: 'any_rule'):
+    """the vote ledger of rule wigm-prf (no sure-loser batches: with defeat_batch the ballots of a whole set of candidates are
+    moved in one sweep, which the ledger invariants do not cover; that variant stays with the bounded stand-in)"""
+    E = self.E
+    requires(count_entry(E))
+    requires(ledger_entry(E))
+    requires(not_(truthy(self.defeat_batch)))
+    modifies_all(Candidate, 'state', 'pending', 'vote')
+    modifies_all(Ballot, 'index', 'weight')
+    modifies(E, 'quota', 'exhausted', 'round', 'surplus')
+    modifies_ghost('nH', 'nE', 'nD', 'nP', 'nlog', 'lasttag', 'lastmsg', 'T', 'G')
+
+
+@contract('droop.rules.scotland.Rule.count', props=['C01', 'C09'], site_props=['C02', 'C04', 'C06', 'C07'], ledger=True)
+def scotland_count(self: 'any_rule'):
+    "Scottish rule (fixed-point arithmetic): counter-level contract and the vote ledger"
+    E = self.E
+    requires(count_entry(E))
+    requires(ledger_entry(E))
+    ensures(ghost('nH') == 0, name='every candidate is decided: nobody is left hopeful')
+    ensures(ghost('nP') == 0, name='no transfer is left pending')
+    ensures(ghost('nW') == old(ghost('nW')), name='withdrawn candidates never change')
+    ensures(ghost('nE') >= E.electionProfile.nSeats, name='the seats are filled (W2)')
+    modifies_all(Candidate, 'state', 'pending', 'vote')
+    modifies_all(Ballot, 'index', 'weight')
+    modifies(E, 'quota', 'exhausted', 'round', 'surplus')
+    modifies_ghost('nH', 'nE', 'nD', 'nP', 'nlog', 'lasttag', 'lastmsg', 'T', 'G')
 
 
 @loops(['droop.rules.wigm_prf.Rule.count', 'droop.rules.scotland.Rule.count'], anchor='while#1')
@@ -51,6 +107,9 @@ def wigm_prf_main_loop(self):
     invariant(forall('ref:droop.candidate.Candidate',
                      lambda c: implies(and_(in_election(c), c.state == 'defeated'), c.vote == E.V0)),
               props=['C06'])      # an excluded candidate holds no votes
+    invariant(implies(ledger_on(), ledger_total(E)), props=['C02'])
+    invariant(implies(ledger_on(), ledger_piles(E)), props=['C02', 'C06'])
+    invariant(implies(ledger_on(), ledger_nonneg(E)), props=['C02'])
     variant(2 * ghost('nH') + ghost('nP'))
 
 
@@ -66,25 +125,6 @@ def batch_defeat() -> 'abs:Candidate':
     ensures(length(result) >= 0)
     ensures(length(result) <= ghost('nH') - (E.electionProfile.nSeats - ghost('nE')), name='enough candidates remain')
     modifies()
-
-
-@specfn
-def ledger_entry(E):
-    """vote ledger at the hand-over (Election.count has just set every tally to zero): the ghost total T (all tallies + the
-    non-transferable total) is the non-transferable total"""
-    return and_(ghost('T') == E.exhausted,
-                forall('ref:droop.candidate.Candidate', lambda c: implies(in_election(c), c.vote == E.V0)))
-
-
-@specfn
-def ledger_inv(E):
-    """W5/W6: no vote has been created (none lost under exact arithmetic), and the tally of every continuing candidate is the
-    value of the ballots standing with that candidate"""
-    N = V_of_int(E.electionProfile.nBallots)
-    return and_(ite(instance_is('real'), ghost('T') == N, ghost('T') <= N),
-                forall('ref:droop.candidate.Candidate',
-                       lambda c: implies(and_(in_election(c), or_(c.state == 'hopeful', and_(c.state == 'elected', truthy(c.pending)))),
-                                         c.vote == ghost_at('G', c))))
 
 
 @contract('droop.rules.wigm.Rule.count', props=['C01', 'C09'], site_props=['C02', 'C04', 'C06', 'C07'], instances=['scaled', 'real'],
@@ -124,7 +164,9 @@ def wigm_main_loop(self):
     invariant(forall('ref:droop.candidate.Candidate',
                      lambda c: implies(and_(in_election(c), c.state == 'defeated'), c.vote == E.V0)),
               props=['C06'])      # an excluded candidate holds no votes
-    invariant(implies(ledger_on(), ledger_inv(E)), props=['C02', 'C06'])
+    invariant(implies(ledger_on(), ledger_total(E)), props=['C02'])
+    invariant(implies(ledger_on(), ledger_piles(E)), props=['C02', 'C06'])
+    invariant(implies(ledger_on(), ledger_nonneg(E)), props=['C02'])
     variant(2 * ghost('nH') + ghost('nP'))
 
 
@@ -132,6 +174,7 @@ def wigm_main_loop(self):
 def wigm_batch_exclusion_loop(self):
     "transferring the ballots of each candidate excluded in a batch: every step leaves the ledger as it found it"
     invariant(implies(ledger_on(), ghost('T') == old(ghost('T'))), props=['C02'])
+    invariant(implies(ledger_on(), ledger_nonneg(self.E)), props=['C02'])
     invariant(implies(ledger_on(), forall('ref:droop.candidate.Candidate',
                                           lambda c: implies(in_election(c),
                                                             c.vote - ghost_at('G', c) == old(c.vote - ghost_at('G', c))))),
